@@ -358,6 +358,10 @@ func propC01(c *Ctx) {
 	}
 	rccf := c.Rule("const-cache-float", "a Float constant reaches the value-keyed constant cache only after the sign of a zero has been examined (0.0 and -0.0 are one map key; the optimizer folds -0.0 into a literal, the plain compiler negates at run time)", 1)
 	ruleConstCacheFloat(c, rccf)
+	rse := c.Rule("shared-expr-no-rewrite", "an expression that is compiled once per member of a const group (implicit repetition) is not rewritten in place by the compile-time folder: every call of the folder is guarded by the compiler's shared-expression flag and the function that carries the expression over raises it", 3)
+	ruleSharedExprNoRewrite(c, rse)
+	rrr := c.Rule("rewrite-by-result", "the optimizer rewrites the tree only by putting the result of a folding / evaluating call in the place of the folded expression: no sub-expression is moved from one node to another", 10)
+	ruleRewriteByResult(c, rrr)
 	rdk := c.Rule("decl-kind-agree", "the optimizer's scope tracking handles every declaration kind (param, global, var, const) the compiler declares names for: every kind compared with GenDecl.Tok in the compiler is compared in the optimizer", 1)
 	ruleDeclKindAgree(c, rdk)
 	rla := c.Rule("assign-lhs-all", "the optimizer registers every target of an assignment / definition as shadowing: the registering loop is bounded by the length of the left-hand side", 1)
